@@ -407,7 +407,12 @@ func init() {
 				body := wireBody(req.Old, req.Proof, req.CP)
 				mut := "none"
 				ms := r.Uint64()
-				switch r.IntN(6) {
+				switch r.IntN(7) {
+				case 6:
+					// an origin line the endpoint does not know and that is not valid UTF-8 (it ends up in log lines and metric labels)
+					mut = "badorigin"
+					bad := Pick(r, "\xff", "log-\xf8-latin1", "\xc3\x28", "a\x00b", "\xed\xa0\x80")
+					body = wireBody(req.Old, nil, []byte(bad+"\n5\nAAAA\n\n\xe2\x80\x94 k AAAAAAAA\n"))
 				case 0:
 				case 1, 2:
 					mut = "bytes"
